@@ -239,6 +239,12 @@ def _random_call(a, rnd):
     d = {"val": C(str(o)), "cls": type(o).__name__}
     if cls is BBAN:
         d["cc"] = C(o.country_code)
+    # what a caller does with the result: read its fields (must not influence any later draw)
+    for n in COMPONENTS + ["bic", "bank"]:
+        try:
+            getattr(o, n)
+        except exc_mod.SchwiftyException:
+            pass
     return d
 
 
